@@ -163,11 +163,13 @@ def h_spill(ctx):
     ref, _s, _l, ref_exc = scenario(kind, masked, None, "slot", None, cstep_h, npub, second_h)
     if ref_exc is not None:
         raise symx.HarnessError(f"reference run without limit failed: {ref_exc!r}")
-    loc = tempfile.mkdtemp(prefix="vf_c10_")
+    top = tempfile.mkdtemp(prefix="vf_c10_")
+    # a location handed to the composition need not exist yet (the composition creates it); one set on a slot must
+    loc = top if how == "slot" else os.path.join(top, "spill")
     try:
         got, saved, left, exc = scenario(kind, masked, limit, how, loc, cstep_h, npub, second_h)
     finally:
-        shutil.rmtree(loc, ignore_errors=True)
+        shutil.rmtree(top, ignore_errors=True)
     sig = f"{kind}:{'masked' if masked else 'plain'}"
     ctx.log("n_saved", len(saved))
     ctx.cover("spilled" if saved else "all-in-ram")
